@@ -439,6 +439,10 @@ func (SignatureProofScheme) ValidateFinalizedProof(
 	// Scratch combination index to reuse on every proof we process.
 	var combIndex big.Int
 	combIndex.SetBytes(mainKeyID[2:])
+	if !validCombinationIndex(nKeys, k, &combIndex) {
+		// Invalid/corrupted key.
+		return nil, false
+	}
 
 	// The bits indicating which keys in the original set have been used so far.
 	// This value is used throughout the rest loop.
@@ -511,6 +515,10 @@ func (SignatureProofScheme) ValidateFinalizedProof(
 			// Corrupt/invalid key ID.
 			return nil, false
 		}
+		if !validCombinationIndex(len(reducedKeys), k, &combIndex) {
+			// Corrupt/invalid key ID.
+			return nil, false
+		}
 		decodeCombinationIndex(len(reducedKeys), k, &combIndex, &reducedProofBits)
 
 		// Project back to original key set and check for duplicates.
@@ -560,6 +568,19 @@ func (SignatureProofScheme) ValidateFinalizedProof(
 	}
 
 	return signBitsByHash, true
+}
+
+// validCombinationIndex reports whether combIndex names one of the
+// C(nKeys, k) ways to choose k > 0 of nKeys keys (with k <= nKeys).
+// Key IDs of finalized proofs arrive from the network,
+// so they must be checked before decodeCombinationIndex is called.
+func validCombinationIndex(nKeys, k int, combIndex *big.Int) bool {
+	if k <= 0 || k > nKeys {
+		return false
+	}
+	var nCombinations big.Int
+	binomialCoefficient(nKeys, k, &nCombinations)
+	return combIndex.Cmp(&nCombinations) < 0
 }
 
 // decodeCombinationIndex accepts n, k, and the combination index,
